@@ -87,7 +87,7 @@ func RunURL(c URLCase) error {
 		proto = gortsplib.ProtocolUDP
 	}
 	cl := NewClient(u.Scheme, u.Host, &proto)
-	d := &net.Dialer{Timeout: 3 * time.Second}
+	d := &net.Dialer{Timeout: 15 * time.Second}
 	cl.DialContext = func(ctx context.Context, network, address string) (net.Conn, error) {
 		nc, err := d.DialContext(ctx, network, address)
 		if err != nil {
